@@ -3,7 +3,7 @@
    list of drawn targets; all paths (prefix attachment, growth, transition lists, capping, hand-over)
    go through [attach], which is the model of MolGen.attach_other.  Proofs in Proofs/GenP.v. *)
 From Coq Require Import List ZArith QArith Ascii String Bool.
-From GBS Require Import Model.PyStr Model.Num Model.Bond Model.Select Model.Gen Proofs.BondP Proofs.GenP Props.GenExample.
+From GBS Require Import Model.PyStr Model.Num Model.Bond Model.Select Model.Gen Proofs.BondP Proofs.GenP Props.GenExample Src.SrcAttach Proofs.AttachSrcP.
 Import ListNotations.
 
 (* every bond of a returned molecule: [a_self] was an open descriptor of an earlier residue,
@@ -55,6 +55,13 @@ Qed.
 Print Assumptions C04_incompatible_is_error.
 
 (* non-vacuity: a documented molecule, picks and target of a seeded run of the implementation *)
+(* tie T: MolGen.attach_other written over its decisions REGENERATED from mol_gen.py (Src/SrcAttach.v; statement skeleton checked, the
+   statements that only place atoms in space left out; is_compatible regenerated from bond.py) is the attach step of the theorems above:
+   the bond is refused unless the two descriptors are compatible *)
+Theorem C04_attach_is_source : forall g i tok ref j, attach_src g i tok ref j = attach g i tok ref j.
+Proof. exact attach_is_source. Qed.
+Print Assumptions C04_attach_is_source.
+
 Example C04_example :
   match run_gen ex1_els ex1_picks ex1_targets with
   | Done (Some g, _) _ => List.length (m_log g) = 7%nat /\ m_open g = []
